@@ -311,3 +311,22 @@ package x509
 //@ ensures [chains-or-an-error] len(chains) == 0 ==> err != nil
 //@ at cr assert [every-root-found-by-name-is-considered-as-a-root] cr.certType == rootCertificate && cr.candidate == opts.Roots.certs[rootNum]
 //@ at ci assert [every-intermediate-found-by-name-is-considered-as-an-intermediate] ci.certType == intermediateCertificate && ci.candidate == opts.Intermediates.certs[intermediateNum]
+
+// Validity of one certificate as the issuer at this position of a chain (C02): it must be named by
+// the certificate below it (unless name checks are off), an intermediate must be a CA, and the path
+// length constraint holds (unless off). With the options the log front end uses — time, critical
+// extension, name-constraint and path-length checks off, name checks on — nothing else refuses.
+//@ func (*Certificate).isValid
+//@ props C02
+//@ may panic
+//@ modifies nothing
+//@ frame-trusted reads the certificates and options; its closures count comparisons in a local
+//@ site bytes.Equal#1 as beq
+//@ requires c != nil && opts != nil
+//@ requires forall j int :: 0 <= j && j < len(currentChain) ==> currentChain[j] != nil
+//@ ensures [valid-only-if-the-certificate-below-names-this-one-as-issuer] !old(opts.DisableNameChecks) && len(currentChain) > 0 && result == nil ==> beq.called && beq.res
+//@ ensures [an-intermediate-must-be-a-ca] certType == intermediateCertificate && (!old(c.BasicConstraintsValid) || !old(c.IsCA)) ==> result != nil
+//@ ensures [the-path-length-constraint-is-honoured-unless-switched-off] !old(opts.DisablePathLenChecks) && old(c.BasicConstraintsValid) && old(c.MaxPathLen) >= 0 && len(currentChain) - 1 > old(c.MaxPathLen) ==> result != nil
+//@ ensures [an-issuer-is-never-valid-for-an-empty-chain] (certType == intermediateCertificate || certType == rootCertificate) && len(currentChain) == 0 ==> result != nil
+//@ ensures [with-the-logs-options-only-naming-and-the-ca-bit-can-refuse] old(opts.DisableTimeChecks) && old(opts.DisableCriticalExtensionChecks) && old(opts.DisableNameConstraintChecks) && old(opts.DisablePathLenChecks) && result != nil ==> (beq.called && !beq.res) || len(currentChain) == 0 || (certType == intermediateCertificate && (!old(c.BasicConstraintsValid) || !old(c.IsCA)))
+//@ at beq assert [issuer-name-of-the-child-against-subject-name-of-this-certificate-byte-for-byte] beq.a == currentChain[len(currentChain) - 1].RawIssuer && beq.b == c.RawSubject
